@@ -134,6 +134,7 @@ def acceptable_for(kind, p, models, images, cuts, call):
 
 
 def sfcf_acceptable(kind, p, models, images, cuts, call):
+    call = {k: v for k, v in call.items() if k not in ("multi", "keyed_out")}      # truncation runs use the single-correlator entry point
     b = p["blocks"][call["block"]]
     full = kind.expect(p, models, None, call)
     if p["layout"] in ("o", "c"):
@@ -148,7 +149,7 @@ def sfcf_acceptable(kind, p, models, images, cuts, call):
                 rec = [bi for bi, bb in enumerate(p["blocks"]) if bb["name"] == b["name"]].index(call["block"])
             else:
                 rec = call["block"]
-            cfg = int(img.name.split("cfg")[-1].split("/")[0]) if p["layout"] == "o" else int(img.name.rsplit("_n", 1)[-1])
+            cfg = int(img.name.split("cfg")[-1].split("/")[0]) if p["layout"] == "o" else int(__import__("re").findall(r"\d+", img.name)[-1])
             if "files" in call:
                 pos = drivers.sorted_reps(p["reps"]).index(rep)
                 if cfg not in [int(__import__("re").findall(r"\d+", f)[-1]) for f in call["files"][pos]]:
